@@ -73,3 +73,18 @@ Definition life_model_with (est : profile -> N -> N -> trap N) (c : life_case) :
   ltrace (est prof) prof (warn_of rules) pol oc Stub ops.
 Definition life_model : life_case -> list N := life_model_with (fun _ => est_new).
 Definition check_life (c : life_case) : bool := beq (life_model c) (snd c).
+
+(** phase-2 signing with HTLC lists (repeated entries included), simple validator.  The case is
+    a [commit_case] whose entry is 0 (counterparty commitment: Channel method or
+    SignRemoteCommitmentTx2) or 1 (sign_holder_commitment_tx_phase2_redundant); the info holds
+    the FULL lists of the request.  Observed: 0 signed and the signature verifies against the
+    transaction built from those full lists, 1 panic, 2 refused, 3 / 4 signed but the signature
+    is for some other transaction (never acceptable). *)
+Definition signed_model (c : commit_case) : N :=
+  let '((prof, rules, pol), (k, e, s, cs, n, i), _) := c in
+  if k =? 0 then code3 (sign_counterparty est_new prof (warn_of rules) pol false e s cs n i)
+  else code3 (validate_entry SimpleHolder est_new prof (warn_of rules) pol e s cs n i).
+Definition check_signed (c : commit_case) : bool :=
+  let m := signed_model c in
+  let o := snd c in
+  if o =? 0 then m =? 0 else if o <=? 2 then negb (m =? 0) else false.
